@@ -7,6 +7,7 @@ from .. import facts
 from ..codecs import Codecs, writer_attr_reads
 from ..index import is_self_attr, walk_no_nested
 from ..report import AnalysisError, head, norm
+from ..sym import canon
 
 
 def conjuncts(expr):
@@ -126,6 +127,45 @@ def element_classes(cd: Codecs, u, attr):
     return out
 
 
+def cell_coverage(prog, cd, rep, rule="eq-cell-coverage"):
+    """A cell-by-cell comparison `X[i, j] for i in range(A) for j in range(B)` must range over the full extents of the
+    array in axis order: (A, B) are the attributes the decoder passes as (axis 0, axis 1) extents of the decoded array."""
+    from ..layout import Alloc, Sub, walk_terms
+    for u in cd.units.values():
+        f = u.cls.get("__eq__")
+        if f is None:
+            continue
+        un = cd.unify(u)
+        # expected extents per sub-object: inner decoder allocates np.empty((p0, p1)) from its parameters
+        expected = None
+        for w, r, args, kwargs in un.sub_args:
+            inner = cd.units.get(r.cls.name) if r.cls is not None else None
+            if inner is None:
+                continue
+            params = [p for p in inner.reader.params if p != inner.rstream]
+            for a in walk_terms(inner.rterms):
+                if isinstance(a, Alloc) and isinstance(a.length, (ast.Tuple, ast.List)) and len(a.length.elts) == 2 and all(isinstance(e, ast.Name) and e.id in params for e in a.length.elts):
+                    idx = [params.index(e.id) for e in a.length.elts]
+                    if max(idx) < len(args):
+                        expected = [canon(args[i], un.ctx) for i in idx]
+        if expected is None:
+            continue
+        sn, on = f.self_name or "self", f.params[0]
+        for g in [x for x in walk_no_nested(f.node) if isinstance(x, (ast.GeneratorExp, ast.ListComp)) and len(x.generators) == 2]:
+            ext = {}
+            for gen in g.generators:
+                if isinstance(gen.target, ast.Name) and isinstance(gen.iter, ast.Call) and norm(gen.iter.func) == "range" and len(gen.iter.args) == 1:
+                    ext[gen.target.id] = norm(gen.iter.args[0])
+            subs = [x for x in ast.walk(g.elt) if isinstance(x, ast.Subscript) and isinstance(x.slice, ast.Tuple) and len(x.slice.elts) == 2 and all(isinstance(e, ast.Name) and e.id in ext for e in x.slice.elts)]
+            if not subs or len(ext) != 2:
+                continue
+            got = [ext[e.id] for e in subs[0].slice.elts]
+            if got == expected:
+                rep.ok(rule, f"{u.cls.name}.__eq__: cells compared over the full extents {expected} in axis order", nontrivial=True)
+            else:
+                rep.fail(rule, u.cls.module.path.name, f"{u.cls.name}.__eq__", g, f"cells `{norm(subs[0])}` are compared over range({got[0]}) x range({got[1]}) but the array's axes have extents {expected[0]} x {expected[1]}: some cells are never compared")
+
+
 def run(prog, rep):
     cd = Codecs(prog)
     cd.flag_errors(rep)
@@ -198,6 +238,7 @@ def run(prog, rep):
                 if k.get("__eq__") is None and not any(x[0] == a for x in info.elementwise):
                     rep.fail("eq-defined", k.module.path.name, k.name, k.node, f"{k.name} (element of {u.cls.name}.{a}) defines no __eq__", construct=f"class {k.name} :: __eq__")
     rep.floor("eq methods", n_eq, 18)
+    cell_coverage(prog, cd, rep)
     # units without __eq__ that are elements of something compared are reported above; units with a writer and no __eq__ at all:
     for u in cd.units.values():
         if u.cls.get("__eq__") is None:
